@@ -22,7 +22,7 @@ def writeOne (st : St) (seg : WSeg) (buf : Bytes) (start : Nat) : St × Option S
     if !ok3 then (st3, some .fault) else
     let (st4, ok4) := st3.op (.seek seg.off) target (fun fs => (fs, true))
     if !ok4 then (st4, some .fault) else
-    if buf.length < start + seg.len then (st4, some .panic) else
+    if buf.length < start + seg.len then (st4, some .fault) else
     let data := (buf.drop start).take seg.len
     let (st5, ok5) := st4.op (.write seg.off data) target (fun fs => (fs.writeAt i seg.off data, true))
     if !ok5 then (st5, some .fault) else (st5, none)
